@@ -51,6 +51,8 @@ def sentence_methods_called(w, fn):
 
 def run(chk):
     w = C.world_for(chk)
+    from . import ctors as _acc
+    _acc.accessors(chk, w, only=["vaporetto::sentence::"])
     for rid, txt in (("R15.1", "filters touch only boundaries (resp. tags); API surface"), ("R15.2", "single constant label, no read of boundary contents"),
                      ("R15.3", "rule tables of wsconst / line-break / tagger")):
         chk.rule(rid, txt)
